@@ -84,6 +84,7 @@ JL_GOALS = {
     "b": _jl_hcfg(N=1, Delay=0, JobPT=1),
     "c": _jl_hcfg(MaxAtt=1, Delay=0),
     "d": _jl_hcfg(MaxAtt=1, Delay=0, JobPT=0, JobTTL=4),
+    "e": _jl_hcfg(N=1, MaxAtt=1, Delay=0, JobPT=0, JobTTL=4),
 }
 
 
@@ -101,7 +102,7 @@ JOBLIFE = {
     "vh": "joblife",
     "design": {
         "quick": _jl_design(["core", "foreign", "crash", "ext", "reject"], 600),
-        "thorough": _jl_design(["core", "kill0", "kill1", "fault", "del", "ext", "crash", "any2", "all2", "foreign", "forbid", "lagq", "reject", "hold", "rekill", "invalid"], 2400),
+        "thorough": _jl_design(["core", "kill0", "kill1", "fault", "del", "ext", "crash", "any2", "all2", "foreign", "forbid", "lagq", "reject", "hold", "rekill", "invalid", "watchbreak"], 2400),
     },
     "sim": {"quick": _jl_sims(12), "thorough": _jl_sims(400)},
     # directed schedules: breadth-first search for goal states of JobLife_Goal.tla, replayed and continued with random steps
